@@ -1,9 +1,76 @@
 import WzVerif.Driver.Proto
+import WzVerif.Model.Accept
 namespace Wz.Driver.C17
-open Wz Wz.Proto
+open Wz Wz.Proto Wz.Accept
 
-/-- stub: no model commands yet -/
+def listArg (f : String → Option α) (s : String) : Option (List α) :=
+  if s == "[]" then some [] else (s.splitOn ",").mapM f
+
+def pairArg (s : String) : Option (Str × Str) :=
+  match s.splitOn ":" with
+  | [a, b] => match unhexStr a, unhexStr b with
+    | some a, some b => some (a, b)
+    | _, _ => none
+  | _ => none
+
+def outQ (q : Q) : String := let n := q.norm; toString n.num ++ "/" ++ toString n.scale
+
+def outItems (l : List (Str × Q)) : String := outList (fun (v, q) => hexStr v ++ "=" ++ outQ q) l
+
+/-- answer: `items|best|quality per offer|find per offer|contains per offer` -/
+def answer (self : List (Str × Q)) (best : Option Str) (offers : List Str)
+    (qual : Str → String) (fnd : Str → String) (cont : Str → String) : String :=
+  "|".intercalate [outItems self, outOpt hexStr best, outList qual offers, outList fnd offers,
+    outList cont offers]
+
+def outFind : Option Nat → String
+  | none => "-1"
+  | some i => toString i
+
+def generic (N : Neg (List Bool) Q) (header : Str) (offers : List Str) : String :=
+  match parseAccept N header with
+  | .error e => e
+  | .ok self =>
+    answer self (bestMatch N self offers) offers
+      (fun o => outQ ((quality N self o).getD Q.zero))
+      (fun o => outFind (find N self o))
+      (fun o => outBool (contains N self o))
+
 def handle : Handler
+  | "neg", [cls, header, offers, aliases] =>
+    match unhexStr header, listArg unhexStr offers, listArg pairArg aliases with
+    | some header, some offers, some aliases =>
+      match cls with
+      | "accept" => some (generic acceptNeg header offers)
+      | "charset" => some (generic (charsetNeg aliases) header offers)
+      | "lang" =>
+        some (match parseAccept langNeg header with
+          | .error e => e
+          | .ok self =>
+            answer self (langBestMatch self offers) offers
+              (fun o => outQ ((quality langNeg self o).getD Q.zero))
+              (fun o => outFind (find langNeg self o))
+              (fun o => outBool (contains langNeg self o)))
+      | "mime" =>
+        some (match parseAccept mimeNeg header with
+          | .error e => e
+          | .ok self =>
+            let r (o : Str) (s : String) : String := if mimeRaises self o then "E" else s
+            let best := if offers.any (mimeRaises self) then "E" else outOpt hexStr (bestMatch mimeNeg self offers)
+            "|".intercalate [outItems self, best,
+              outList (fun o => r o (outQ ((quality mimeNeg self o).getD Q.zero))) offers,
+              outList (fun o => if mimeRaises self o then "-1" else outFind (find mimeNeg self o)) offers,
+              outList (fun o => r o (outBool (contains mimeNeg self o))) offers])
+      | _ => some badArgs
+    | _, _, _ => some badArgs
+  | "parseq", [s] =>
+    match unhexStr s with
+    | some s => some (outOpt outQ (parseQ s))
+    | none => some badArgs
+  | "mimesplit", [s] =>
+    match unhexStr s with
+    | some s => some (outList hexStr (mimeSplit s))
+    | none => some badArgs
   | _, _ => none
 
 end Wz.Driver.C17
